@@ -54,6 +54,15 @@ CLAIMED["C12"] = ("exploration", "deviation-bounded exhaustive enumeration of th
 CLAIMED["C16"] = ("fault_enumeration", "exhaustive single-fault enumeration: every nonlinear solve k of 8 recorded fault-free runs x 4 fault kinds (iteration limit, singular Jacobian early/late, line-search failure) x convergence_error x backup solver {none, succeeds, fails}, plus trial-limit faults; thorough adds all fault pairs and 30-min steps",
     "each fault is injected into the k-th call of the real NewtonSolver.solve so that the library's own error paths run; every execution is judged for termination, table shape (one increasing integer index on the report grid, one column per element, finite), RuntimeError vs warning + error_code, and equality of the reported prefix with the fault-free run",
     "faults are injected from outside (wrapped solver entry points), not by making the physics infeasible; termination only within a 60 s horizon per execution")
+CLAIMED["C04"] = ("exploration", "exhaustive enumeration of all single time/clock-time controls and rules x start_clocktime x hydraulic step x rule step, and of all sets of two (thorough: all CLOSED x OPEN pairs, selected triples) on one target; oracle = event-timeline reference model cross-validated against EPANET 2.2 (ctypes, stepped with ENrunH/ENnextH) on every case",
+    "every control set of the alphabets is simulated with 'ALL' reporting; every instant at which the reference timeline changes the target must be a solved step and the reported status at every solved step must equal the timeline; the timeline itself must agree with EPANET at every instant EPANET visits (else the run ends with a harness error, exit 2)",
+    "combinations in which EPANET evaluates rules at extra instants (off-grid simple control + rule on an instant) and equal-priority conflicts are outside the statement and excluded; rule steps divide the hydraulic step")
+CLAIMED["C10"] = ("exploration", "exhaustive enumeration of pause histories: 15 single-feature models x every subset of <=1 (thorough <=2/3) hourly pause instants x pickle yes/no, plus all feature pairs with single pauses; every part run on a new WNTRSimulator and compared with the uninterrupted run",
+    "every history of the bound is executed on the real simulator: the continued part must start at the first step after the pause, indices must increase across parts and the concatenated heads, demands, leak demands, flows, statuses and settings must equal the uninterrupted run within 1e-6 (both solved with TOL 1e-10)",
+    "pauses are on the hourly grid; networks larger than the 4-6 node family are not covered")
+CLAIMED["C11"] = ("model_checking", "explicit enumeration of all operation histories (runW, runE, reset, deepcopy, JSON reload) up to length 3 (thorough 4) over 13 models; every history replayed on a fresh real model; definition invariant (to_dict) in every state and result oracles on fresh states",
+    "after every operation of every history the JSON-normalised to_dict must equal the initial one; a WNTRSimulator run on a fresh state (initial / after reset / reloaded / copy of fresh) must equal the first fresh run (1e-9), every EpanetSimulator run must equal the first one",
+    "history prefixes are not merged (run-time state of live objects cannot be canonicalised); models are 4-node networks")
 NOT_YET = "check not built yet in this session (work in progress, see DESIGN.md section 4)"
 
 
